@@ -356,7 +356,7 @@ func (w *World) Step() {
 				tok = qsr
 			}
 			w.call("pillar.Register", key, types.PillarContract, tok, amt,
-				definition.ABIPillars.PackMethodPanic(definition.RegisterMethodName, g.Pillar4Name, key.Address, key.Address, uint8(0), uint8(100)))
+				definition.ABIPillars.PackMethodPanic(definition.RegisterMethodName, g.Pillar4Name, key.Address, w.user().Address, uint8(w.R.Intn(101)), uint8(w.R.Intn(101)))) // rewards go to somebody else
 		case 3:
 			w.call("pillar.Revoke", key, types.PillarContract, types.ZeroTokenStandard, big.NewInt(0),
 				definition.ABIPillars.PackMethodPanic(definition.RevokeMethodName, g.Pillar4Name))
